@@ -96,7 +96,7 @@ def document(kind, coords, units, gt, spread, href, focus, shape, chain):
     body = SHAPES[shape].format(t=st)
     if gtrans:
         body = f'<g transform="{gtrans}">{body}</g>'
-    return f'<svg {NS} viewBox="0 0 100 100"><defs>{defs}</defs>{body}</svg>'
+    return f'<svg {NS} viewBox="0 0 110 95"><defs>{defs}</defs>{body}</svg>'
 
 
 def judge(doc, tier, seed):
